@@ -1,5 +1,5 @@
 (* C08 — peer requests return only eligible hosts that already whitelisted the requester. *)
-From VP Require Import Base Nonce Store StoreProofs ReqHosts ReqHostsProofs.
+From VP Require Import Base Nonce Store StoreProofs ReqHosts ReqHostsProofs Agent Compose.
 From VPgen Require Import Facts.
 
 Theorem c08_eligible : forall X now st reg maxh self num kind chosen outs,
@@ -53,3 +53,21 @@ Example c08_example :
   let out := request_hosts st [(1, 10); (2, 20)]%N 0 9%N 2 [1; 2; 3]%N [(2%N, Failed)] in
   rh_calls out = [1; 2]%N /\ rh_reply out = [1%N] /\ rh_err_of out = RhNone.
 Proof. vm_compute. auto. Qed.
+
+(* the agent's keep-alive round put together with the pool's answer to its peer request (the
+   end-to-end cases run exactly this composition on the real Agent and the real pool): every host
+   the client's node is told to connect to was sent the whitelist instruction for that client and
+   acknowledged it, is connected, is not the client and not already its peer; and the node is told
+   to connect to no more hosts than it was short of *)
+Theorem c08_round_connects_only_whitelisted :
+  forall (cfg : acfg) (locals active invalid : list pref) (drop_errors : bool)
+    (st : sstate) (reg : registry) (maxh : Z) (self : N) (chosen : list N) (outs : amap outcome) (uri_of : N -> N),
+  let need := ac_target cfg - Z.of_nat (length active) in
+  let out := request_hosts st reg maxh self need chosen outs in
+  let calls := fst (update_round cfg true locals (UpdateOk active invalid) drop_errors (peer_reply_of uri_of out) None) in
+  (forall u, In (CConnect u) calls ->
+     exists h, u = uri_of h /\ In h (rh_calls out) /\ is_ack (outcome_of outs h) = true /\
+               h <> self /\ amem h reg = true /\ In h chosen /\ memb h (akeys (peers_of st self)) = false) /\
+  (Z.of_nat (length (filter (fun c => match c with CConnect _ => true | _ => false end) calls)) <= Z.max 0 need).
+Proof. exact round_connects_only_whitelisted. Qed.
+Print Assumptions c08_round_connects_only_whitelisted.
